@@ -226,7 +226,7 @@ func (e *kvElection) handleHeartbeatFailure(err error) {
 	// verifYield("heartbeatFailureEntry")
 	log := e.getLogger()
 	log.Error("demoting_due_to_heartbeat_failure",
-		append(e.logWithContext(e.ctx),
+		append(e.logWithContext(e.context()),
 			zap.Error(err),
 			zap.String("error_type", classifyErrorType(err)),
 		)...,
@@ -240,7 +240,7 @@ func (e *kvElection) handleHeartbeatFailure(err error) {
 
 	if wasLeader && onDemote != nil {
 		log.Info("leader_demoted",
-			append(e.logWithContext(e.ctx),
+			append(e.logWithContext(e.context()),
 				zap.String("reason", "heartbeat_failure"),
 			)...,
 		)
@@ -252,7 +252,7 @@ func (e *kvElection) handleHealthCheckFailure() {
 	log := e.getLogger()
 	failureCount := e.healthFailureCount.Load()
 	log.Error("demoting_due_to_health_check_failure",
-		append(e.logWithContext(e.ctx),
+		append(e.logWithContext(e.context()),
 			zap.Int32("failure_count", failureCount),
 		)...,
 	)
@@ -265,7 +265,7 @@ func (e *kvElection) handleHealthCheckFailure() {
 
 	if wasLeader && onDemote != nil {
 		log.Info("leader_demoted",
-			append(e.logWithContext(e.ctx),
+			append(e.logWithContext(e.context()),
 				zap.String("reason", "health_check_failure"),
 			)...,
 		)
